@@ -1,0 +1,159 @@
+//go:build verif
+
+package interp
+
+// Contracts for property C04: builtins and address operators of run.go.  Checked by /verif/govc.
+// Comments only.  reflect's own operations (Len, Cap, Addr, Elem, AppendSlice, Copy, SetMapIndex) are
+// uninterpreted (specs/ops.smt2): what is proved is that each closure applies them to the operands of
+// the expression, in order, and stores the result in the destination of the node.
+
+//@ trusted func wantEmptyInterface(n) (r)
+//@   pure
+//@ trusted func isPtr(t) (r)
+//@   pure
+//@ trusted func isInterfaceSrc(t) (r)
+//@   pure
+//@ trusted func isPtrSrc(t) (r)
+//@   pure
+
+//@ func _len(n)
+//@   props C04
+//@   opt gen = true
+//@   opt safety = off
+//@   opt opaque-calls = *
+//@   opt opaque-havoc = none
+//@   ints wrap
+//@   exec (f) (ret)
+//@   exec-ensures [nopath:isPtr(n.child[1].typ)] length-of-the-operand: rvInt(destOf(n, f)) == wrapKind(2, rvLen(operandOf(n.child[1], f)))
+//@   exec-ensures continues: ret == next
+//@   exec-canary [nopath:isPtr(n.child[1].typ)] wrong: rvInt(destOf(n, f)) == wrapKind(2, rvCap(operandOf(n.child[1], f)))
+
+//@ func _cap(n)
+//@   props C04
+//@   opt gen = true
+//@   opt safety = off
+//@   opt opaque-calls = *
+//@   opt opaque-havoc = none
+//@   ints wrap
+//@   exec (f) (ret)
+//@   exec-ensures capacity-of-the-operand: rvInt(destOf(n, f)) == wrapKind(2, rvCap(operandOf(n.child[1], f)))
+//@   exec-ensures continues: ret == next
+//@   exec-canary wrong: rvInt(destOf(n, f)) == wrapKind(2, rvLen(operandOf(n.child[1], f)))
+
+// append(s, t...): the destination receives reflect's AppendSlice of s and t (a string t as []byte)
+//@ func appendSlice(n)
+//@   props C04
+//@   opt gen = true
+//@   opt safety = off
+//@   opt opaque-calls = *
+//@   opt opaque-havoc = none
+//@   ints wrap
+//@   exec (f) (ret)
+//@   exec-ensures [nopath:isString(n.child[2].typ.TypeOf())] slice-then-spread-operand: rvIface(destOf(n, f)) == rvIface(rvAppendSliceOp(operandOf(n.child[1], f), operandOf(n.child[2], f)))
+//@   exec-ensures continues: ret == next
+//@   exec-canary [nopath:isString(n.child[2].typ.TypeOf())] swapped: rvIface(destOf(n, f)) == rvIface(rvAppendSliceOp(operandOf(n.child[2], f), operandOf(n.child[1], f)))
+
+// &x: the destination is (or receives) the address of the operand's location
+//@ func addr(n)
+//@   props C04
+//@   opt gen = true
+//@   opt safety = off
+//@   opt opaque-calls = *
+//@   opt opaque-havoc = none
+//@   ints wrap
+//@   exec (f) (ret)
+//@   exec-ensures [path:isInterfaceSrc(c0.typ)||isPtrSrc(c0.typ)] slot-replaced-by-the-address: getFrame(f, l).data[i] == rvAddrOp(operandOf(n.child[0], f))
+//@   exec-ensures [nopath:isInterfaceSrc(c0.typ)||isPtrSrc(c0.typ)] address-stored: rvIface(operandOf(n, f)) == rvIface(rvAddrOp(operandOf(n.child[0], f)))
+//@   exec-ensures continues: ret == next
+
+// *p: the slot of the node is replaced by the pointed-to location itself (no copy): writes through it
+// reach the pointee
+//@ func deref(n)
+//@   props C04
+//@   opt gen = true
+//@   opt safety = off
+//@   opt opaque-calls = *
+//@   opt opaque-havoc = none
+//@   ints wrap
+//@   exec (f) (ret)
+//@   exec-ensures [nopath:n.fnext!=nil] slot-is-the-pointee: getFrame(f, l).data[i] == rvElem(operandOf(n.child[0], f))
+//@   exec-ensures [nopath:n.fnext!=nil] continues: ret == tnext
+
+// copy(dst, src) and delete(m, k): the function handed to the builtin wrapper applies reflect.Copy to
+// (dst, src) in that order / removes exactly key k from m (SetMapIndex with the zero Value).
+//@ lit _copy calls:Copy (args) (r)
+//@   props C04
+//@   opt safety = off
+//@   opt opaque-calls = *
+//@   opt opaque-havoc = none
+//@   requires [assume] len(args) == 2
+//@   ensures copies-source-into-destination: len(r) == 1 && rvInt(r[0]) == rvCopyOp(args[0], args[1])
+//@   canary len(r) == 1 && rvInt(r[0]) == rvCopyOp(args[1], args[0])
+
+//@ lit _delete calls:SetMapIndex (args) (r)
+//@   props C04
+//@   opt safety = off
+//@   opt opaque-calls = *
+//@   opt opaque-havoc = none
+//@   requires [assume] len(args) == 2
+//@   ensures removes-the-key-from-the-map: rvIface(args[0]) == rvMapSet(old(rvIface(args[0])), args[1], 0)
+//@   canary rvIface(args[0]) == old(rvIface(args[0]))
+
+// m[k] as a value: the destination receives a copy of the map element when the key is present and the
+// zero value of the element type otherwise (constant and computed keys).
+//@ func getIndexMap(n)
+//@   props C04
+//@   opt gen = true
+//@   opt safety = off
+//@   opt opaque-calls = *
+//@   opt opaque-havoc = none
+//@   ints wrap
+//@   exec (f) (ret)
+//@   exec-ensures [path:n.child[1].rval.IsValid();path:default] present-constant-key: rvValid(rvMapIndexOp(operandOf(n.child[0], f), n.child[1].rval)) ==> rvIface(operandOf(n, f)) == rvIface(rvMapIndexOp(operandOf(n.child[0], f), n.child[1].rval)) && rvInt(operandOf(n, f)) == rvInt(rvMapIndexOp(operandOf(n.child[0], f), n.child[1].rval))
+//@   exec-ensures [path:n.child[1].rval.IsValid();path:default] absent-constant-key: !rvValid(rvMapIndexOp(operandOf(n.child[0], f), n.child[1].rval)) ==> rvInt(operandOf(n, f)) == 0
+//@   exec-ensures [path:!n.child[1].rval.IsValid();path:default] present-key: rvValid(rvMapIndexOp(operandOf(n.child[0], f), operandOf(n.child[1], f))) ==> rvIface(operandOf(n, f)) == rvIface(rvMapIndexOp(operandOf(n.child[0], f), operandOf(n.child[1], f))) && rvInt(operandOf(n, f)) == rvInt(rvMapIndexOp(operandOf(n.child[0], f), operandOf(n.child[1], f)))
+//@   exec-ensures [path:!n.child[1].rval.IsValid();path:default] absent-key: !rvValid(rvMapIndexOp(operandOf(n.child[0], f), operandOf(n.child[1], f))) ==> rvInt(operandOf(n, f)) == 0
+//@   exec-ensures [path:default] continues: ret == tnext
+//@   exec-canary [path:!n.child[1].rval.IsValid();path:default] swapped: rvValid(rvMapIndexOp(operandOf(n.child[0], f), operandOf(n.child[1], f))) ==> rvInt(operandOf(n, f)) == rvInt(rvMapIndexOp(operandOf(n.child[1], f), operandOf(n.child[0], f)))
+
+// map literal: a NEW map is made for every evaluation; element i of the literal stores value i under
+// key i (in order, so that a repeated key keeps the last value); the destination receives that map.
+//@ trusted func valueGenerator(n, i) (r)
+//@   result-fn (f) (v)
+//@   fn-ensures v == slotOf2(f, n, i)
+//@ func mapLit(n)
+//@   props C04
+//@   opt gen = true
+//@   opt safety = off
+//@   opt loops = havoc
+//@   opt fn-values = pure
+//@   opt opaque-calls = *
+//@   opt opaque-havoc = none
+//@   ints wrap
+//@   exec (f) (ret)
+//@   exec-ensures continues: ret == next
+//@   exec-ensures [local:m] destination-receives-the-new-map: rvIface(slotOf2(f, n, n.findex)) == rvIface(m)
+//@   exec-loop 1
+//@   step element-i-stored-under-key-i: rvIface(m) == rvMapSet(old(rvIface(m)), k(f), values[i](f))
+
+// array / slice literal: element k is stored at its index — the constant key when it is written
+// `key: value`, otherwise one more than the index of the previous element (0 for the first) — in a new
+// array or slice made for this evaluation; a slice literal has length and capacity max index + 1.
+//@ trusted func (t *itype) resolveAlias() (r)
+//@   pure
+//@ pred litIndex(child, index, k): ite(child[k].kind == keyValueExpr, vInt(child[k].child[0].rval), ite(k == 0, 0, index[k-1] + 1))
+//@ func arrayLit(n)
+//@   props C04
+//@   opt gen = true
+//@   opt safety = off
+//@   opt fn-values = pure
+//@   opt opaque-calls = *
+//@   opt opaque-havoc = none
+//@   ints math
+//@   loop 1 index gi
+//@   invariant element-positions: forall(k, 0, gi, index[k] == litIndex(child, index, k)) && prev == ite(gi == 0, 0, index[gi-1] + 1)
+//@   invariant max-covers-all: forall(k, 0, gi, index[k] < max) && max >= 0
+//@   exec (f) (ret)
+//@   exec-ensures continues: ret == next
+//@   exec-loop 1
+//@   step element-i-stored-at-its-index: rvIface(rvIndexOp(a, index[i])) == rvIface(v(f)) && rvInt(rvIndexOp(a, index[i])) == rvInt(v(f))
